@@ -38,6 +38,8 @@ type stepJ struct {
 
 // scenario is a running simulation of one ExtendedDaemonSet (plus optional neighbours).
 type scenario struct {
+	// faultLog: "verb:Kind" per global write index of the last corpus run
+	faultLog []string
 	w     *simWorld
 	r     *rand.Rand
 	clock *testingclock.FakeClock
@@ -133,8 +135,11 @@ func (s *scenario) countWrites() {
 func (s *scenario) recERS(ns, edsName, rsName string, faults map[int]string) {
 	w := s.w
 	in := ersInput(w.cl, ns, edsName, rsName, w.aff, w.ersRec)
+	dupBefore := w.doubledNodes(ns, edsName)
 	w.wl, w.faults, w.writeCount, w.faultFired = &writeLog{}, faults, 0, false
 	out, nowC := runErsReconcile(w.ersRec, w.cl, w.wl, ns, edsName, rsName)
+	in["doubledBefore"] = dupBefore
+	in["doubledAfter"] = w.doubledNodes(ns, edsName)
 	crashed := w.dead
 	w.dead = false
 	w.faults = nil
